@@ -4,6 +4,7 @@
 #include <cstdint>
 #include <functional>
 #include <map>
+#include <memory>
 #include <optional>
 #include <set>
 #include <string>
@@ -72,6 +73,7 @@ struct Config
     int cache_pages = 0;  // 0: default; >0: PRAGMA cache_size
     int sector = 4096;
     uint32_t checks = CK_ALL;
+    bool table_api = false;  // 2.x: open through v2::engine_library so that actor T shares the connection
     std::string profile;
     GenFlags gf;
     Json to_json() const;
@@ -341,6 +343,17 @@ struct World
     bool exec_hostile_op(const Step& s);  // hostile.cpp
     void apply_setter(dj::track& t, int field, int slot, const dj::track_snapshot& donor,
                       bool use_value_overload);
+    // actor T (table.cpp)
+    struct TState;
+    struct TStateDeleter
+    {
+        void operator()(TState* p) const;
+    };
+    std::unique_ptr<TState, TStateDeleter> tstate;
+    void table_check(const std::string& op, int64_t touched);
+    void open_table_library();
+    void close_table_library();
+    bool reload_table_library();
     void audit();  // audit.cpp (actor A)
     std::set<int64_t> foreign_tracks;  // rows written by actor F with shapes the API cannot express
     void check_model(const FullObs& o);
